@@ -88,13 +88,8 @@ class PlainUnit(PrettyIPython, SharedRegistryObject):
         dict
             Dimensionality of the PlainUnit, e.g. ``{length: 1, time: -1}``
         """
-        try:
-            return self._dimensionality
-        except AttributeError:
-            dim = self._REGISTRY._get_dimensionality(self._units)
-            self._dimensionality = dim
-
-        return self._dimensionality
+        # not memoised per object (see PlainQuantity.dimensionality)
+        return self._REGISTRY._get_dimensionality(self._units)
 
     def compatible_units(self, *contexts):
         if contexts:
